@@ -1,3 +1,4 @@
+LU = {"print_list_headings.0": 22, "print_list_separators.0": 22, "ro_printf.0": 22, "print_footers.2": 22}
 CLAIM = ("C10 (partial, solver-decidable parts).  TODO")
 ASSUMPTIONS = []
 HARNESSES = [
@@ -18,10 +19,23 @@ HARNESSES = [
          units=["src/extract.c:file_full_path,make_parent_directories,check_parent_directory"], timeout=600,
          bounds="as shape.s3 with strings of <= 4 bytes",
          stubs=["lha_arch_exists / lha_arch_mkdir: recording stubs, arbitrary results", "malloc/strdup/free: typed static buffers (size asked is checked)", "safe_printf/safe_fprintf: no-ops"]),
-    dict(name="readonly.m2", src="C10/readonly.c", defines=["M=2", "SL=2"], unwind=14,
-         unwindset={},
-         units=["src/list.c", "src/extract.c", "src/filter.c", "lib/lha_reader.c"], timeout=600, mem_gb=6,
-         bounds="<= 2 members (dir/symlink/compressed/stored; strings <= 2 arbitrary bytes, each may be NULL; all numeric fields arbitrary), commands l v t p xn pn tn, quiet 0..2, verbose, i, w=, 0/1 wildcard of 2 bytes, three dir policies, decoder results arbitrary",
+    dict(name="defer.insert", src="C10/defer.c", entry="harness_insert", defines=["SL=2"], unwind=6,
+         units=["lib/lha_reader.c:extract_placeholder_symlink,file_header_path_len"], timeout=200,
+         bounds="arbitrary sorted deferred list of <= 3 headers + the current header; path and file name each NULL or <= 2 arbitrary bytes; lha_arch_fopen succeeds or fails",
+         stubs=["lha_arch_fopen: recording, arbitrary result", "fclose, lha_file_header_add_ref: counting stubs"]),
+    dict(name="defer.next", src="C10/defer.c", entry="harness_next", defines=["SL=2"], unwind=5,
+         units=["lib/lha_reader.c:lha_reader_next_file,end_of_top_dir,close_decoder"], timeout=200,
+         bounds="arbitrary reader state under the stated invariant: any current-file type, <= 2 queued directories, <= 2 deferred links, basic reader with/without current and next member, paths NULL or <= 2 bytes, three directory policies",
+         stubs=["lha_basic_reader_next_file/_curr_file: arbitrary, 'exhausted' is absorbing", "lha_file_header_free: recording"]),
+    dict(name="defer.run.m2", src="C10/defer_run.c", defines=["M=2"], unwind=8, unwindset={"copy_bytes.0": 30},
+         units=["lib/lha_reader.c"], timeout=300, mem_gb=6,
+         bounds="2 members (dir / file / symlink), header path <= 2 arbitrary bytes, name NULL or 1 byte, link target <= 3 arbitrary bytes; any extra_flags/timestamp; each member extracted or skipped; every arch call succeeds or fails arbitrarily; 3 directory policies",
+         stubs=["lha_basic_reader_*: serves the 2 headers then NULL", "decoders: arbitrary success, one read", "lha_arch_*: recording stubs with the trace checks, arbitrary results", "fwrite/fclose: stubs"]),
+] + [
+    dict(name="readonly.%s" % nm, src="C10/readonly.c", defines=["M=2", "SL=2", "CMD=%d" % c], unwind=uw, unwindset=us,
+         units=["src/list.c", "src/extract.c", "src/filter.c", "lib/lha_reader.c"], timeout=200, mem_gb=6, object_bits=12,
+         bounds="command %s; <= 2 members (dir/symlink/compressed/stored; strings <= 2 arbitrary bytes, each may be NULL; all numeric fields arbitrary), dry-run flag, quiet 0..2, verbose, i, w=, no wildcards, three dir policies, decoder results arbitrary" % nm,
          stubs=["lha_arch_mkdir/_fopen/_symlink/_chmod/_chown/_utime: CHECK(0)", "lha_arch_exists: arbitrary", "lha_basic_reader_*: delivers the arbitrary headers", "lha_decoder_*/lha_macbinary_passthrough: arbitrary results, <= 2 non-empty reads, progress callback invoked",
-                "fwrite/fstat/localtime/time: arbitrary", "safe_printf: no-op; printf: CBMC built-in (no effect)"]),
+                "fwrite/fstat/localtime/time: arbitrary", "safe_printf: no-op; printf: returns the length of a lone %s argument, else 0, no other effect"])
+    for nm, c, uw, us in [("l", 0, 14, LU), ("v", 1, 14, LU), ("t", 2, 7, {}), ("p", 3, 7, {}), ("xn", 4, 7, {})]
 ]
